@@ -74,6 +74,11 @@ impl Prop for C10 {
                 html.push_str(&format!("<style>{}</style>", gen::sheet(r).replace("</", "< /")));
             }
             html.push_str(&gen_doc(r, k).0);
+            // documents that end with an element carrying an id but no text (markers pending at the very end): the
+            // routes must still agree (added after the seeded change C10-lines-route-trailing-fragment-line)
+            if r.p(20) {
+                html.push_str(r.pick(&["<a name=\"end\"></a>", "<div id=\"foot\"></div>", "<span id=\"z\"></span>", "<p id=\"q\"></p>", " <a id=\"e2\"></a>"]));
+            }
             let bytes = if i % 7 == 6 { gen::mutate(r, html.as_bytes()) } else { html.into_bytes() };
             let mut cfg = mk_cfg(r, css);
             if css && r.p(40) {
